@@ -1,0 +1,11 @@
+//go:build verif
+
+package ipld
+
+// Contracts for the deductive verifier in /verif (govc). Comments only; build tag "verif".
+
+// The proofs adder handed to a tree under construction is a new object: feeding the tree disturbs
+// nothing that existed before.
+//@ func NewProofsAdder
+//@   property C05
+//@   ensures result != nil && isFresh(result)
